@@ -84,7 +84,15 @@ func Bubble(t *testing.T, realDeadline time.Duration, f func(t *testing.T) strin
 					msg = msg[:i]
 				}
 				_ = debug.Stack
-				ch <- "PANIC:" + strings.ReplaceAll(msg, " ", "_")
+				out := "PANIC:" + strings.ReplaceAll(msg, " ", "_")
+				if p := Partial.Load(); p != nil {
+					t := (*p)()
+					if len(t) > 6000 {
+						t = t[len(t)-6000:]
+					}
+					out += " tail: " + t
+				}
+				ch <- out
 			}
 		}()
 		var res string
